@@ -1108,7 +1108,7 @@ def oracle_cases(ctx, full):
     for c in (exhaustive_cases(3, rank2=True, reduced=True) if full else exhaustive_cases(2, rank2=False)):
         if c[0] != "np":
             cases.append(c)
-    n_rand = 40000 if full else 5000
+    n_rand = 30000 if full else 5000
     for _ in range(n_rand):
         shape = gen_shape(rng)
         if rng.random() < 0.3:
